@@ -975,6 +975,21 @@ pub fn boundary(idx: usize, seed: u64, w: &mut dyn Write, thorough: bool) -> Opt
                     g.step(&x(l.creator.as_str(), vec![], MMsg::DL { id: l.id }));
                 }
             }
+            // denominations that look like the fee denominations are ordinary assets: only the exact ones carry a fee,
+            // before and after a switch
+            for round in 0..2u64 {
+                let l = 80 + round;
+                let goods = natives(&[(1000, JUNO_DENOM), (1000, "UJUNOX"), (1000, "ujunox2"), (1000, USDC_DENOM), (1000, "Uusdcx"), (1000, "uusdcx.b")]);
+                let pay = natives(&[(400, "UJUNOX"), (400, "ujunox2"), (400, "Uusdcx"), (400, "uusdcx.b"), (3, "uatom")]);
+                g.step(&x("alice", goods, MMsg::CL { id: l, create: Create { ask: RawGBal::natives(pay.clone()), whitelist: None } }));
+                g.step(&x("alice", vec![], MMsg::FI { id: l, seconds: 600 }));
+                g.step(&x("bobby", pay, MMsg::CB { id: l }));
+                g.step(&x("bobby", vec![], MMsg::BL { listing_id: l, bucket_id: l }));
+                g.step(&x("bobby", vec![], MMsg::WP { id: l }));
+                g.step(&x("alice", vec![], MMsg::RB { id: l }));
+                g.step(&Op::ADV { d_ns: 604_801_000_000_000, d_height: 100_000 });
+                g.step(&x("carol", vec![], MMsg::FC));
+            }
             g.battery_drain();
             Some(g.stats)
         }
